@@ -92,6 +92,9 @@ class Run:
         self.build(flavor)
         if self.replay_file:
             scs = [json.load(open(self.replay_file))['scenario']]
+            # a recorded scenario is replayed through the trace specification of its own family only
+            if (scs[0].get('key') == 'session') != (trace_module == 'Trace_Cli'):
+                return {}
         scs = vlib.number(vlib.dedupe(scs), start=self.scenarios + 1)
         t = time.time()
         obs = vlib.replay(scs, self.dir, flavor=flavor, harness=harness, env=env, tmo=tmo, batch=batch,
@@ -362,6 +365,10 @@ def c12(r):
     r.exhaustive = True
     r.extra['bounds'] = 'all ordered operator pairs (parent, child, side) of 6 arithmetic, 6 relational, 3 logical operators + unary shapes with minimal parentheses; 150 statement-level programs; 55 literal/statement forms (relation only)'
     r.conform(scs, workers=8)
+    # the save command in a session (BlocCli): statements; save; run; clear; load; run; list -- replayed in the real command
+    s2 = r.gen('Gen_Cli', 'Gen_Cli_round.cfg', env={'GEN_PART': 'round', 'ROUND_LEN': '3' if r.quick else '4'}, workers=8, timeout=3000)
+    r.conform(s2, trace_module='Trace_Cli', trace_cfg='Trace_Cli.cfg', workers=16, tmo=60)
+    r.extra['bounds'] += '; interactive sessions: every accepted sequence of <= %d statements (of 14) then save, run, clear, load, run, list' % (3 if r.quick else 4)
 
 
 @prop('C13')
@@ -383,6 +390,17 @@ def c19(r):
     r.exhaustive = True
     r.extra['bounds'] = '17 programs (10 return shapes, 5 failures, function/handler) x 4 argument vectors x {file, -, --out}; 8 invalid texts x 3 modes; 3 interactive sessions x 2 argument vectors; 24 expressions + 4 invalid for -e'
     r.conform(scs, workers=8, tmo=60)
+    # the interactive session as a state machine (BlocCli): design properties, then behaviours replayed in the real command
+    r.mc('BlocCli', 'MC_Cli.cfg', 'interactive session (statements, run, clear, list, save, load, = expr): the pool and every saved file compile on their own '
+         'in a cleared session, clear leaves nothing, only save writes a file; all command sequences of length <= %d over 24 commands' % (3 if r.quick else 4),
+         env={'MC_LEN': '3' if r.quick else '4'}, timeout=3000)
+    s2 = r.gen('Gen_Cli', 'Gen_Cli_bfs.cfg', env={'GEN_PART': 'bfs', 'BFS_LEN': '2' if r.quick else '3'}, workers=8, timeout=3000)
+    r.conform(s2, trace_module='Trace_Cli', trace_cfg='Trace_Cli.cfg', workers=16, tmo=60)
+    s3 = r.gen('Gen_Cli', 'Gen_Cli_sim.cfg', env={'GEN_LEN': '12' if r.quick else '20'}, workers=1, timeout=3000,
+               extra=['-simulate', 'num=%d' % (300 if r.quick else 3000), '-depth', '40', '-seed', str(r.seed)])
+    r.conform(s3, trace_module='Trace_Cli', trace_cfg='Trace_Cli.cfg', workers=16, tmo=60)
+    r.extra['bounds'] += ('; interactive sessions: every sequence of %d commands (14 statements, 3 expressions, run/clear/list/save/load on 2 files) after each of 4 seeds, '
+                          '%d random sessions of %d commands' % ((2, 300, 12) if r.quick else (3, 3000, 20)))
 
 
 @prop('C01')
